@@ -32,7 +32,7 @@ def invalid_values(cls, pname, kind, default, objs):
     elif kind == "hourly":
         out.append(("wrong-type-quantity", SourceValue(3 * u.dimensionless)))
         out.append(("wrong-type-float", 2.0))
-    elif kind == "object":
+    elif kind in ("object", "sourceobject"):
         lv = cls.list_values()
         if pname in lv:
             out.append(("not-in-allowed-list", SourceObject("certainly-not-allowed")))
@@ -46,6 +46,24 @@ def invalid_values(cls, pname, kind, default, objs):
         wrong = objs["dev"] if not kind.endswith("Device") else objs["net"]
         out.append(("list-with-wrong-class", [wrong]))
     return out
+
+
+def offered_info(bad, default):
+    info = {}
+    try:
+        if isinstance(bad, realsys.ExplainableQuantity):
+            info["offered_dim"] = list(realsys.unit_info(bad.value.units)[1])
+        if default is not None and isinstance(default, realsys.ExplainableQuantity):
+            info["default_dim"] = list(realsys.unit_info(default.value.units)[1])
+        elif default is not None:
+            info["default_dim"] = [0, 0, 0, 0, 0]
+        if isinstance(bad, list) and bad:
+            info["offered_cls"] = type(bad[0]).__name__
+        elif hasattr(bad, "calculated_attributes"):
+            info["offered_cls"] = type(bad).__name__
+    except Exception:  # noqa
+        pass
+    return info
 
 
 def params_of(obj):
@@ -93,7 +111,8 @@ def run_assignments(seed, grouped=False, history_first=True, only=None):
                 after = snapshot.deep(objs)
                 changed = snapshot.diff(before, after)
                 results.append({"obj": n, "cls": type(o).__name__, "param": pn, "kind": kind, "invalid": label,
-                                "raised": raised, "changed": [list(map(str, c)) for c in changed], "grouped": grouped})
+                                "raised": raised, "changed": [list(map(str, c)) for c in changed], "grouped": grouped,
+                                **offered_info(bad, default)})
                 if changed or raised is None:
                     # the model may now be in a different state: rebuild so that later cases start clean
                     objs = richsys.build(values=[round(rng.uniform(0.5, 9), 2) for _ in range(rng.randint(3, 9))])
@@ -154,3 +173,56 @@ def shard(args):
     if mode == "construct":
         return run_constructions(only=names)
     return run_assignments(seed, grouped=(mode == "grouped"), only=names)
+
+
+def inval_json(r):
+    """abstract description of the offered value for the Lean validation model"""
+    lab = r["invalid"]
+    if lab == "wrong-dimension":
+        return {"t": "quantity", "dim": r.get("offered_dim", [0, 0, 0, 0, 0]), "neg": False}
+    if lab == "negative":
+        return {"t": "quantity", "dim": r.get("default_dim", [0, 0, 0, 0, 0]), "neg": True}
+    if lab == "wrong-type-float":
+        return {"t": "float"}
+    if lab == "wrong-type-str":
+        return {"t": "str"}
+    if lab == "wrong-type-hourly":
+        return {"t": "hourly"}
+    if lab == "wrong-type-quantity":
+        return {"t": "quantity", "dim": r.get("offered_dim", [0, 0, 0, 0, 0]), "neg": False}
+    if lab == "not-in-allowed-list":
+        return {"t": "sobj", "allowed": False}
+    if lab == "wrong-class":
+        return {"t": "modeling", "cls": r.get("offered_cls", "Device")}
+    if lab == "list-with-wrong-class":
+        return {"t": "list", "clss": [r.get("offered_cls", "Device")]}
+    raise ValueError(lab)
+
+
+def correspondence(results):
+    """model outcome vs real outcome for every assignment case; returns disagreements"""
+    from harness.common import run_lean
+    cases = [r for r in results if not r.get("construction") and not r.get("grouped")]
+    answers = run_lean([{"cmd": "validate", "cls": r["cls"], "param": r["param"], "val": inval_json(r)} for r in cases])
+    dis = []
+    for r, a in zip(cases, answers):
+        if "bad" in a:
+            dis.append({"why": "driver: " + a["bad"], "case": r})
+            continue
+        o = a["outcome"]
+        if o == "no-row":
+            dis.append({"why": f"no row for {r['cls']}.{r['param']} in the generated table", "case": r})
+        elif o == "refused-before-apply":
+            same = r["raised"] == a["err"] or (a["err"] == "immutable" and r["raised"] == "immutable") or (a["err"] == "type" and r["raised"] in ("type", "list-type", "other:TypeError", "other:AttributeError"))
+            if not same:
+                dis.append({"why": f"model refuses with {a['err']} before apply; real: {r['raised']}", "case": r})
+            elif r["changed"]:
+                dis.append({"why": f"model: refused before any mutation; real: refused but state changed {r['changed'][:2]}", "case": r})
+        elif o == "refused-after-apply":
+            if r["raised"] != a["err"]:
+                dis.append({"why": f"model refuses with {a['err']} after apply; real: {r['raised']}", "case": r})
+        elif o == "accepted":
+            # the model covers validation only: a later refusal by recomputation is outside it
+            if r["raised"] in ("dim", "neg", "type", "list-type", "not-allowed") and r["kind"] != "union":
+                dis.append({"why": f"model accepts; real refuses with {r['raised']}", "case": r})
+    return dis, len(cases)
